@@ -449,6 +449,7 @@ def search(ctx):
             if why:
                 ctx.fail("damage-accepted", fail_record("bec2", cm, comps, key, kind, param, t2, ck, with_ck),
                          "%s %r: %s" % (kind, param, why))
+    ctx.extra["partial"] = PARTIAL
     ctx.extra["rule"] = (
         "authentic files: 7 boundary shapes (empty directory, trailing 0x00 runs, last byte with non-zero high nibble, 16-aligned and "
         "encrypted payloads, several components, two identical payloads) + random C01-shaped files with binary <= 420 bytes (1-3 components, "
@@ -461,8 +462,18 @@ def search(ctx):
         "(file, damage point)" % (SUFFIXES,))
 
 
+PARTIAL = (
+    "byte replacement and wrong session key are proved as a REDUCTION (C04_forgery_reduction_partial): acceptance with different "
+    "content exhibits a successful MAC comparison on a (key, iv, message, tag) the writer never computed, or a payload-MAC collision "
+    "inside the authentic file; unforgeability of the CBC-MAC itself is cryptographic and is neither assumed nor proved. "
+    "Unconditional (no cryptographic assumption): truncation at every point of binary and text, appended bytes/characters, damage "
+    "confined to a stored entry-MAC / payload-MAC field, the sentinel, an address field, the signature. BEC2 headers (authentication "
+    "blocks) are covered by the sweep on the implementation only; the binary-level theorems hold for every header length.")
+
+
 def replay(ctx, data):
     rc = 0
+    shown = 0
     for f in data.get("fails", []):
         d = f["data"]
         print(f["kind"], f["detail"][:400])
@@ -482,7 +493,8 @@ def replay(ctx, data):
             print(" damaged text:", repr(d["text"])[:300])
             print(" replay on the implementation:", "error " + res[1] if res[0] == "err" else "accepted")
             print(" predicate:", why or "holds")
-            if d["fmt"] == "bf3":
+            if d["fmt"] == "bf3" and shown < 5:
+                shown += 1
                 print(" model:", ctx_show(ctx, d["text"], k2))
             rc |= bool(why)
         except Exception as e:   # noqa
